@@ -6,9 +6,11 @@ import (
 	"encoding/json"
 	"errors"
 	"net"
+	"strconv"
 	"strings"
 	"sync"
 	"sync/atomic"
+	"time"
 
 	"github.com/varlink/go/varlink"
 	"verif/harness/vt"
@@ -40,6 +42,35 @@ type Harness struct {
 	Scripts map[string]*Script
 	mu      sync.Mutex
 	Conns   map[int]*ConnState
+	meets   map[string]chan struct{}
+}
+
+// Meet: the first handler to arrive at a rendezvous waits (at most d) for a second one; false if nobody came.
+func (h *Harness) Meet(id string, d time.Duration) bool {
+	h.mu.Lock()
+	if h.meets == nil {
+		h.meets = map[string]chan struct{}{}
+	}
+	if ch, ok := h.meets[id]; ok {
+		delete(h.meets, id)
+		h.mu.Unlock()
+		close(ch)
+		return true
+	}
+	ch := make(chan struct{})
+	h.meets[id] = ch
+	h.mu.Unlock()
+	select {
+	case <-ch:
+		return true
+	case <-time.After(d):
+		h.mu.Lock()
+		if h.meets[id] == ch {
+			delete(h.meets, id)
+		}
+		h.mu.Unlock()
+		return false
+	}
 }
 
 func (h *Harness) Conn(i int) *ConnState {
@@ -128,6 +159,19 @@ func (d *Disp) VarlinkDispatch(ctx context.Context, c varlink.Call, method strin
 	}
 	for _, s := range sc.Steps {
 		var err error
+		if s.kind == 'w' {
+			ms, _ := strconv.Atoi(s.arg)
+			time.Sleep(time.Duration(ms) * time.Millisecond)
+			continue
+		}
+		if s.kind == 'b' {
+			// the two handlers can only meet if the service runs them at the same time; a service that serialises
+			// connections makes the first one wait in vain: logged, so that the history differs from the model's
+			if !d.H.Meet(s.arg, 3*time.Second) {
+				entry = append(entry, "x-nobody-else-was-served")
+			}
+			continue
+		}
 		switch s.kind {
 		case 'r':
 			c.Continues = s.cont
@@ -205,6 +249,12 @@ func ParseScript(f []string) *Script {
 			st.policy = t[1]
 			st.std = t[3]
 			st.arg = string(vt.Unhex(t[5:]))
+		case 'w':
+			// the handler takes a while (milliseconds)
+			st.arg = t[1:]
+		case 'b':
+			// rendezvous with the handler of ANOTHER connection that runs a step with the same id
+			st.arg = t[1:]
 		}
 		sc.Steps = append(sc.Steps, st)
 	}
